@@ -234,6 +234,10 @@ theorem Out.write_captured {B : Type} [FmtWrite B] (o : Out B) (c : Chunk) (h : 
   | some buf :: rest => simp
   | none :: rest => simp [hs]
 
+theorem step_write_rec (c : Chunk) (wr : List Chunk) (wraps : List Wrap) :
+    step (.write c) (⟨⟨wr, []⟩, wraps⟩ : St (List Chunk)) = (⟨⟨wr ++ [c], []⟩, wraps⟩, none) := by
+  cases c <;> simp [step, Out.write, put, FmtWrite.writeStr, FmtWrite.writeChar]
+
 /-- the recorder only ever appends -/
 theorem run_recorder_appends (ops : List Op) (sr : St (List Chunk)) :
     ∃ cs, (run ops sr).1.out.w = sr.out.w ++ cs := by
@@ -245,10 +249,9 @@ theorem run_recorder_appends (ops : List Op) (sr : St (List Chunk)) :
     | write c =>
       cases stack with
       | nil =>
-        cases c <;>
-        · simp only [run, step, Out.write, put, FmtWrite.writeStr, FmtWrite.writeChar, if_true]
-          obtain ⟨cs, h⟩ := ih ⟨⟨w ++ [_], []⟩, wraps⟩
-          exact ⟨_ :: cs, by rw [h]; simp⟩
+        simp only [run, step_write_rec]
+        obtain ⟨cs, h⟩ := ih ⟨⟨w ++ [c], []⟩, wraps⟩
+        exact ⟨c :: cs, by rw [h]; simp⟩
       | cons top rest =>
         cases top <;> simpa [run, step, Out.write] using ih _
     | beginCapture d => simpa [run, step, Out.beginCapture] using ih _
@@ -282,8 +285,7 @@ theorem run_sim {B : Type} [FmtWrite B] (ops : List Op) (st : St B) (sr : St (Li
       | nil =>
         cases hp : put w c with
         | mk w' ok =>
-          have hrec : step (.write c) (⟨⟨wr, []⟩, wraps⟩ : St (List Chunk)) = (⟨⟨wr ++ [c], []⟩, wraps⟩, none) := by
-            cases c <;> simp [step, Out.write, put, FmtWrite.writeStr, FmtWrite.writeChar]
+          have hrec := step_write_rec c wr wraps
           cases ok with
           | true =>
             have hst : step (.write c) (⟨⟨w, []⟩, wraps⟩ : St B) = (⟨⟨w', []⟩, wraps⟩, none) := by
@@ -301,7 +303,7 @@ theorem run_sim {B : Type} [FmtWrite B] (ops : List Op) (st : St B) (sr : St (Li
             refine ⟨c :: cs, ?_, ?_, ?_⟩
             · simp only [run, hrec]; rw [h1]; simp
             · simp only [run, hst, feed, hp]
-            · right; simp only [run, hst, feed, hp]; exact ⟨rfl, _, rfl⟩
+            · right; simp only [run, hst, feed, hp]; exact ⟨trivial, _, rfl⟩
       | cons top rest =>
         cases top with
         | none =>
@@ -333,5 +335,222 @@ theorem run_sim {B : Type} [FmtWrite B] (ops : List Op) (st : St B) (sr : St (Li
       simp only [run, step]
       exact ih _ _ rfl rfl
     | fail id => exact ⟨[], by simp [run, step, feed]⟩
+
+/-- **Captures are invisible to the base writer.**  Deleting all captured regions changes
+    neither what reaches the base writer nor the result. -/
+theorem run_erase {B : Type} [FmtWrite B] (ops : List Op) (d : Nat) (st se : St B)
+    (hw : st.out.w = se.out.w) (hwr : st.wraps = se.wraps) (hd : st.out.stack.length = d)
+    (he : se.out.stack = []) :
+    (run (erase d ops) se).1.out.w = (run ops st).1.out.w ∧
+    (run (erase d ops) se).2 = (run ops st).2 := by
+  induction ops generalizing d st se with
+  | nil => simp [erase, run, hw]
+  | cons op ops ih =>
+    obtain ⟨⟨w, stack⟩, wraps⟩ := st
+    obtain ⟨⟨w2, stack2⟩, wraps2⟩ := se
+    simp only at hw hwr hd he
+    subst hw hwr he hd
+    cases op with
+    | write c =>
+      cases stack with
+      | nil =>
+        simp only [erase, List.length_nil, if_true, run, step, Out.write]
+        by_cases hok : (put w c).2 = true
+        · simp only [hok, if_true]
+          exact ih 0 ⟨⟨(put w c).1, []⟩, wraps⟩ ⟨⟨(put w c).1, []⟩, wraps⟩ rfl rfl rfl rfl
+        · simp [hok]
+      | cons top rest =>
+        have hne : (top :: rest).length ≠ 0 := by simp
+        simp only [erase, hne, if_false]
+        cases top with
+        | none =>
+          simp only [run, step, Out.write]
+          exact ih _ ⟨⟨w, none :: rest⟩, wraps⟩ ⟨⟨w, []⟩, wraps⟩ rfl rfl rfl rfl
+        | some buf =>
+          simp only [run, step, Out.write]
+          exact ih _ ⟨⟨w, some (buf ++ c.bytes) :: rest⟩, wraps⟩ ⟨⟨w, []⟩, wraps⟩ rfl rfl (by simp) rfl
+    | beginCapture dd =>
+      simp only [erase, run, step, Out.beginCapture]
+      exact ih _ _ ⟨⟨w, []⟩, wraps⟩ rfl rfl (by simp) rfl
+    | endCapture =>
+      cases stack with
+      | nil => simp [erase, run, step, Out.endCapture]
+      | cons top rest =>
+        have hne : (top :: rest).length ≠ 0 := by simp
+        simp only [erase, hne, if_false, run, step, Out.endCapture]
+        exact ih _ ⟨⟨w, rest⟩, wraps⟩ ⟨⟨w, []⟩, wraps⟩ rfl rfl (by simp) rfl
+    | enter x =>
+      simp only [erase, run, step]
+      exact ih _ ⟨⟨w, stack⟩, x :: wraps⟩ ⟨⟨w, []⟩, x :: wraps⟩ rfl rfl rfl rfl
+    | leave =>
+      simp only [erase, run, step]
+      exact ih _ ⟨⟨w, stack⟩, wraps.tail⟩ ⟨⟨w, []⟩, wraps.tail⟩ rfl rfl rfl rfl
+    | fail id => simp [erase, run, step]
+
+/-- the only panic of the output machinery is an `end_capture` without `begin_capture` -/
+theorem run_no_panic {B : Type} [FmtWrite B] (ops : List Op) (st : St B)
+    (hb : balanced st.out.stack.length ops = true) : (run ops st).2 ≠ .panic := by
+  induction ops generalizing st with
+  | nil => simp [run]
+  | cons op ops ih =>
+    obtain ⟨⟨w, stack⟩, wraps⟩ := st
+    cases op with
+    | write c =>
+      simp only [balanced] at hb
+      simp only [run, step]
+      have hl : (Out.write ⟨w, stack⟩ c).1.stack.length = stack.length := by
+        cases stack with
+        | nil => simp [Out.write]
+        | cons top rest => cases top <;> simp [Out.write]
+      by_cases hok : (Out.write ⟨w, stack⟩ c).2 = true
+      · simp only [hok, if_true]
+        exact ih ⟨(Out.write ⟨w, stack⟩ c).1, wraps⟩ (by simpa [hl] using hb)
+      · simp [hok]
+    | beginCapture dd =>
+      simp only [balanced] at hb
+      simp only [run, step, Out.beginCapture]
+      exact ih _ (by simpa using hb)
+    | endCapture =>
+      cases stack with
+      | nil => simp [balanced] at hb
+      | cons top rest =>
+        simp only [List.length_cons, balanced] at hb
+        simp only [run, step, Out.endCapture]
+        exact ih _ (by simpa using hb)
+    | enter x =>
+      simp only [balanced] at hb
+      simp only [run, step]
+      exact ih _ (by simpa using hb)
+    | leave =>
+      simp only [balanced] at hb
+      simp only [run, step]
+      exact ih _ (by simpa using hb)
+    | fail id => simp [run, step]
+
+/-! ## the API boundaries in terms of `feed` -/
+
+/-- Both renders in terms of the chunk sequence `chunksOf ops`. -/
+theorem render_spec (ops : List Op) (script : List Beh) :
+    (renderString ops).buf = flat (chunksOf ops) ∧
+    (renderTo ops script).calls = (feed (⟨script, [], none⟩ : WriteWrapper) (chunksOf ops)).1.calls ∧
+    (((feed (⟨script, [], none⟩ : WriteWrapper) (chunksOf ops)).2 = true ∧
+        (feed (⟨script, [], none⟩ : WriteWrapper) (chunksOf ops)).1.err = none ∧
+        (renderTo ops script).result = (renderString ops).result) ∨
+     ((feed (⟨script, [], none⟩ : WriteWrapper) (chunksOf ops)).2 = false ∧
+        ∃ e, (feed (⟨script, [], none⟩ : WriteWrapper) (chunksOf ops)).1.err = some e ∧
+          (renderTo ops script).result = .ok (.error (.writeFailure (some e))))) := by
+  obtain ⟨cs, hc, hw, hr⟩ :=
+    run_sim ops (St.init (⟨script, [], none⟩ : WriteWrapper)) (St.init ([] : List Chunk)) rfl rfl
+  obtain ⟨cs', hc', hw', hr'⟩ :=
+    run_sim ops (St.init ([] : Bytes)) (St.init ([] : List Chunk)) rfl rfl
+  have hcs : cs = chunksOf ops := by simpa [chunksOf, St.init] using hc.symm
+  have hcs' : cs' = chunksOf ops := by simpa [chunksOf, St.init] using hc'.symm
+  subst hcs
+  rw [hcs'] at hw' hr'
+  have hstr : (renderString ops).result = (run ops (St.init ([] : List Chunk))).2 := by
+    rcases hr' with ⟨_, h⟩ | ⟨h, _⟩
+    · exact h
+    · simp [St.init, feed_string] at h
+  refine ⟨?_, ?_, ?_⟩
+  · simp only [renderString]; rw [hw']; simp [St.init, feed_string]
+  · simp only [renderTo]; rw [hw]; rfl
+  · obtain ⟨new, f1, f2, f3, f4⟩ := feed_spec (chunksOf ops) (⟨script, [], none⟩ : WriteWrapper) rfl
+    rcases hr with ⟨hok, hres⟩ | ⟨hok, e0, hres⟩
+    · left
+      have herr := (f3 hok).1
+      refine ⟨hok, herr, ?_⟩
+      rw [hstr, ← hres]
+      simp only [renderTo]
+      have : (run ops (St.init (⟨script, [], none⟩ : WriteWrapper))).1.out.w.err = none := by
+        rw [hw]; exact herr
+      cases hrr : (run ops (St.init (⟨script, [], none⟩ : WriteWrapper))).2 with
+      | panic => rfl
+      | ok x =>
+        cases x with
+        | ok u => rfl
+        | error e => simp [WriteWrapper.takeErr, this]
+    · right
+      obtain ⟨e, herr, _⟩ := f4 hok
+      refine ⟨hok, e, herr, ?_⟩
+      simp only [renderTo, hres]
+      have : (run ops (St.init (⟨script, [], none⟩ : WriteWrapper))).1.out.w.err = some e := by
+        rw [hw]; exact herr
+      simp [WriteWrapper.takeErr, this]
+
+/-- the facts about a `renderTo` that all theorems below are read off from -/
+theorem render_facts (ops : List Op) (script : List Beh) :
+    delivered (renderTo ops script).calls <+: (renderString ops).buf ∧
+    ((Clean (renderTo ops script).calls ∧ (renderTo ops script).result = (renderString ops).result ∧
+        delivered (renderTo ops script).calls = (renderString ops).buf) ∨
+     (∃ e, FailsWith (renderTo ops script).calls e ∧
+        (renderTo ops script).result = .ok (.error (.writeFailure (some e))))) := by
+  obtain ⟨hbuf, hcalls, hr⟩ := render_spec ops script
+  obtain ⟨new, f1, f2, f3, f4⟩ := feed_spec (chunksOf ops) (⟨script, [], none⟩ : WriteWrapper) rfl
+  simp only [List.nil_append] at f1
+  rw [hbuf, hcalls, f1]
+  refine ⟨f2, ?_⟩
+  rcases hr with ⟨hok, _, hres⟩ | ⟨hok, e, herr, hres⟩
+  · left
+    obtain ⟨_, hc, hd⟩ := f3 hok
+    exact ⟨hc, hres, hd⟩
+  · right
+    obtain ⟨e', herr', hf⟩ := f4 hok
+    rw [herr] at herr'
+    cases herr'
+    exact ⟨e, hf, hres⟩
+
+/-! ## benign sink behaviours: short writes and `Interrupted` are absorbed by `write_all` -/
+
+/-- behaviours that `write_all` absorbs: full or short (non-zero) writes and `Interrupted` -/
+def Beh.benign : Beh → Bool
+  | .all => true
+  | .accept k => k != 0
+  | .half => true
+  | .err e => e.kind == .interrupted
+
+theorem writeAll_benign (script : List Beh) (buf : Bytes) (h : ∀ b ∈ script, b.benign = true) :
+    (writeAll script buf).err = none ∧ ∀ b ∈ (writeAll script buf).rest, b.benign = true := by
+  induction script generalizing buf with
+  | nil => unfold writeAll; by_cases hb : buf = [] <;> simp [hb]
+  | cons beh rest ih =>
+    have hrest : ∀ b ∈ rest, b.benign = true := fun b hb => h b (List.mem_cons_of_mem _ hb)
+    have hbeh : beh.benign = true := h beh (by simp)
+    unfold writeAll
+    by_cases hb : buf = []
+    · simpa [hb] using h
+    · simp only [hb, if_false]
+      have hlen : 0 < buf.length := by
+        cases buf with
+        | nil => exact absurd rfl hb
+        | cons x xs => simp
+      cases hr : beh.apply buf with
+      | ok n =>
+        cases n with
+        | zero =>
+          exfalso
+          cases beh with
+          | all => simp only [Beh.apply, CallRes.ok.injEq] at hr; omega
+          | accept k =>
+            simp [Beh.benign] at hbeh
+            simp only [Beh.apply, CallRes.ok.injEq] at hr; omega
+          | half => simp only [Beh.apply, CallRes.ok.injEq] at hr; omega
+          | err e => simp [Beh.apply] at hr
+        | succ n => exact ih _ hrest
+      | err e =>
+        have hk : e.kind = .interrupted := by
+          cases beh <;> simp [Beh.apply] at hr
+          subst hr
+          simpa [Beh.benign] using hbeh
+        simp only [hk, if_true]
+        exact ih _ hrest
+
+theorem feed_benign (cs : List Chunk) (w : WriteWrapper) (h : ∀ b ∈ w.script, b.benign = true) :
+    (feed w cs).2 = true := by
+  induction cs generalizing w with
+  | nil => rfl
+  | cons c cs ih =>
+    obtain ⟨h1, h2⟩ := writeAll_benign w.script c.bytes h
+    simp only [feed, put_wrapper, WriteWrapper.writeBytes, h1]
+    exact ih _ h2
 
 end MJ.Output
